@@ -221,7 +221,9 @@ func init() {
 		})
 	}
 	ifaceModels[bk+"BurnCoins"] = func(x *Exec, st *State, ci *callInfo, recv Val, a []Val, k func(*State, Val)) {
-		x.usedModels[bk+"BurnCoins"] = "err == nil: module balance had >= a; Supply[d] -= a, module balance -= a"
+		x.usedModels[bk+"BurnCoins"] = "err == nil: module balance had >= a; Supply[d] -= a, module balance -= a; err != nil only when the module balance is insufficient (the module account holds the Burner permission: F obligation module-account-permissions)"
+		x.bankErrOnlyInsufficient = true
+		defer func() { x.bankErrOnlyInsufficient = false }()
 		x.bankOp(st, ci, a, k, func(st *State, w int, d, am T) T {
 			pre := Ge(sel2(st.Worlds[w]["Bal"], ghostModuleAddr(), d), am)
 			x.ghostAdd(st, w, "Supply", nil, d, app(SInt, "-", am))
@@ -394,6 +396,10 @@ func (x *Exec) bankOp(st *State, ci *callInfo, a []Val, k func(*State, Val), app
 		pre = And(pre, p)
 	}
 	st.assume(pre, "bank operation succeeded => sufficient funds")
+	if x.bankErrOnlyInsufficient {
+		x.bankErrOnlyInsufficient = false
+		es.assume(Not(pre), "burning fails only for insufficient funds")
+	}
 	x.tryPath(func() { k(st, &ErrV{IsNil: TTrue}) })
 	x.tryPath(func() { k(es, &ErrV{IsNil: TFalse}) })
 }
